@@ -59,6 +59,7 @@ const (
 	OFEq
 	OFIsNaN
 	OUF // uninterpreted function application: name + args
+	OByte // byte c (little-endian index) of integer a[0]
 )
 
 type Term struct {
@@ -530,6 +531,40 @@ func (s *Store) FIsNaN(x *Term) *Term {
 	return s.mk(&Term{op: OFIsNaN, kind: KBool, a: []*Term{x}})
 }
 
+// Byte extracts byte idx (0 = least significant) of the integer x.
+func (s *Store) Byte(x *Term, idx int) *Term {
+	if x.isConst() {
+		return s.Int((x.c>>(8*uint(idx)))&0xff, 8, false)
+	}
+	if x.bits == 8 && !x.signed && idx == 0 {
+		return x
+	}
+	return s.mk(&Term{op: OByte, kind: KInt, bits: 8, signed: false, a: []*Term{x}, c: uint64(idx)})
+}
+
+// Compose builds the integer of shape (bits, signed) from little-endian bytes.
+func (s *Store) Compose(bs []*Term, bits uint8, signed bool) *Term {
+	// all bytes of one term, in order: the term itself
+	if len(bs) > 0 && bs[0].op == OByte && bs[0].c == 0 {
+		x := bs[0].a[0]
+		ok := int(x.bits) == 8*len(bs)
+		for i, b := range bs {
+			if b.op != OByte || b.a[0] != x || b.c != uint64(i) {
+				ok = false
+			}
+		}
+		if ok {
+			return s.Conv(x, bits, signed)
+		}
+	}
+	acc := s.Int(0, bits, false)
+	for i, b := range bs {
+		w := s.Conv(b, bits, false)
+		acc = s.Bin(OAdd, acc, s.Bin(OMul, w, s.Int(uint64(1)<<(8*uint(i)), bits, false)))
+	}
+	return s.Conv(acc, bits, signed)
+}
+
 // UF applies an uninterpreted function (declared on first use from the argument sorts).
 func (s *Store) UF(name string, kind Kind, bits uint8, signed bool, args ...*Term) *Term {
 	return s.mk(&Term{op: OUF, kind: kind, bits: bits, signed: signed, name: name, a: args})
@@ -825,18 +860,44 @@ func (e *Emitter) bodyInt(t *Term, a []string) string {
 			return "(div " + a[0] + " " + pow2(uint8(k)).String() + ")" // floor division == arithmetic shift
 		}
 	case OAnd:
-		if !signed {
-			if t.a[1].isConst() {
-				if n, ok := isPow2Const(&Term{op: OConst, c: t.a[1].c + 1}); ok {
-					return "(mod " + a[0] + " " + pow2(n).String() + ")"
-				}
+		// x & mask where mask is one contiguous run of ones [lo,hi): ((x' div 2^lo) mod 2^(hi-lo)) * 2^lo
+		for k := 0; k < 2; k++ {
+			if !t.a[k].isConst() {
+				continue
 			}
-			if t.a[0].isConst() {
-				if n, ok := isPow2Const(&Term{op: OConst, c: t.a[0].c + 1}); ok {
-					return "(mod " + a[1] + " " + pow2(n).String() + ")"
-				}
+			m := t.a[k].c
+			x := a[1-k]
+			if m == 0 {
+				return "0"
 			}
+			lo := uint8(0)
+			for m&1 == 0 {
+				m >>= 1
+				lo++
+			}
+			if m&(m+1) != 0 {
+				break // not contiguous
+			}
+			w := uint8(0)
+			for mm := m; mm != 0; mm >>= 1 {
+				w++
+			}
+			if signed {
+				x = "(mod " + x + " " + M + ")"
+			}
+			res := fmt.Sprintf("(* (mod (div %s %s) %s) %s)", x, pow2(lo).String(), pow2(w).String(), pow2(lo).String())
+			if signed {
+				return wrapInt(res, bits, true)
+			}
+			return res
 		}
+	case OByte:
+		x := t.a[0]
+		u := a[0]
+		if x.signed {
+			u = "(mod " + a[0] + " " + pow2(x.bits).String() + ")"
+		}
+		return fmt.Sprintf("(mod (div %s %s) 256)", u, pow2(uint8(8*t.c)).String())
 	case OI2F:
 		return "((_ to_fp 11 53) RNE (to_real " + a[0] + "))"
 	case OF2I:
@@ -849,7 +910,7 @@ func (e *Emitter) bodyInt(t *Term, a []string) string {
 	if t.op == OF2I {
 		return "(let ((r (fp.to_real (fp.roundToIntegral RTZ " + a[0] + ")))) (to_int r))"
 	}
-	panic(encErr(fmt.Sprintf("operation %d on symbolic operands is not expressible in the integer encoding (use bv mode)", t.op)))
+	panic(encErr(fmt.Sprintf("operation %d on symbolic operands is not expressible in the integer encoding (use bv mode): %s", t.op, clip(t.String(), 300))))
 }
 
 func (e *Emitter) bodyBV(t *Term, a []string) string {
@@ -943,6 +1004,8 @@ func (e *Emitter) bodyBV(t *Term, a []string) string {
 			return fmt.Sprintf("((_ sign_extend %d) %s)", int(t.bits)-int(x.bits), a[0])
 		}
 		return fmt.Sprintf("((_ zero_extend %d) %s)", int(t.bits)-int(x.bits), a[0])
+	case OByte:
+		return fmt.Sprintf("((_ extract %d %d) %s)", 8*t.c+7, 8*t.c, a[0])
 	case OI2F:
 		if t.a[0].signed {
 			return "((_ to_fp 11 53) RNE " + a[0] + ")"
@@ -1005,6 +1068,8 @@ func (t *Term) String() string {
 		return fmt.Sprintf("int%d(%s)", t.bits, t.a[0].String())
 	case OFIsNaN:
 		return "isNaN(" + t.a[0].String() + ")"
+	case OByte:
+		return fmt.Sprintf("byte%d(%s)", t.c, t.a[0].String())
 	case OUF:
 		var ss []string
 		for _, x := range t.a {
